@@ -29,7 +29,7 @@ Qed.
 
 Ltac ls_simp :=
   cbn [pop_front ls_loop ls_apply set_target set_fg set_bg set_underline set_effects
-       t_fg t_bg t_ul t_eff option_map ls_st_of fst snd].
+       t_fg t_bg t_ul t_eff option_map ls_st_of fst snd negb andb orb].
 
 (* one arm: straight-line arms go back to the loop (induction hypothesis) or break; the
    look-ahead arms are followed through every outcome of their pop_fronts *)
